@@ -47,7 +47,7 @@ func (c *Correctable) Watch(level int) <-chan struct{} {
 	ch := make(chan struct{})
 	c.mu.Lock()
 	defer c.mu.Unlock()
-	if level <= c.level {
+	if level <= c.level || c.done {
 		close(ch)
 		return ch
 	}
@@ -122,7 +122,7 @@ func (c RawConfiguration) CorrectableCall(ctx context.Context, d CorrectableCall
 	}
 	vEmit("CallIssued", 0, md.MessageID, "expected", expectedReplies)
 
-	corr := &Correctable{donech: make(chan struct{}, 1)}
+	corr := &Correctable{level: LevelNotSet, donech: make(chan struct{}, 1)}
 
 	go c.handleCorrectableCall(ctx, corr, correctableCallState{
 		md:              md,
@@ -167,17 +167,20 @@ func (c RawConfiguration) handleCorrectableCall(ctx context.Context, corr *Corre
 			}
 			replies[r.nid] = r.msg
 			vEmit("CallRecv", r.nid, state.md.MessageID, "err", false, "nerr", len(errs), "nrep", len(replies))
-			if resp, rlevel, quorum = state.data.QuorumFunction(state.data.Message, replies); quorum {
-				if quorum {
-					corr.set(r.msg, rlevel, nil, true)
-					vEmit("CallEnd", 0, state.md.MessageID, "out", "ok", "nerr", len(errs), "nrep", len(replies), "level", rlevel)
-					return
+			resp, rlevel, quorum = state.data.QuorumFunction(state.data.Message, replies)
+			if quorum {
+				if rlevel < clevel {
+					// published levels never decrease, also not at completion
+					rlevel = clevel
 				}
-				if rlevel > clevel {
-					clevel = rlevel
-					corr.set(r.msg, rlevel, nil, false)
-					vEmit("CorrPublish", 0, state.md.MessageID, "level", rlevel)
-				}
+				corr.set(resp, rlevel, nil, true)
+				vEmit("CallEnd", 0, state.md.MessageID, "out", "ok", "nerr", len(errs), "nrep", len(replies), "level", rlevel)
+				return
+			}
+			if rlevel > clevel {
+				clevel = rlevel
+				corr.set(resp, rlevel, nil, false)
+				vEmit("CorrPublish", 0, state.md.MessageID, "level", rlevel)
 			}
 		case <-ctx.Done():
 			corr.set(resp, clevel, QuorumCallError{cause: ctx.Err(), errors: errs, replies: len(replies)}, true)
